@@ -382,15 +382,18 @@ def record_traces(ck, rng, counts):
     return traces, events
 
 
-def sample_image_trace(ck):
-    """the one real Group 4 image of the repository (third-party encoder): its decoded rows must be a fixed point -
-    the recorded mode steps have to be a conforming coding of the rows that were put out"""
+def sample_image_trace(ck, counts):
+    """the one real Group 4 image of the repository (third-party encoder): it must decode without an exception to
+    /Height rows, and its decoded rows must be a fixed point - the recorded mode steps have to be a conforming coding
+    of the rows that were put out"""
+    path = "/repo/samples/encryption/encrypted_doc_no_id.pdf"
     try:
         from pdfminer.pdfdocument import PDFDocument
         from pdfminer.pdfparser import PDFParser
         from pdfminer.pdftypes import PDFStream, resolve1
-        fp = open("/repo/samples/encryption/encrypted_doc_no_id.pdf", "rb")
+        fp = open(path, "rb")
         doc = PDFDocument(PDFParser(fp))
+        found = None
         for xref in doc.xrefs:
             for objid in xref.get_objids():
                 try:
@@ -398,17 +401,35 @@ def sample_image_trace(ck):
                 except Exception:
                     continue
                 if isinstance(o, PDFStream) and "CCITT" in repr(o.attrs.get("Filter")):
-                    parms = resolve1(o.attrs.get("DecodeParms")) or {}
-                    w = int(resolve1(parms.get("Columns")))
-                    rec = g4run.Recorder().install()
-                    try:
-                        o.get_data()
-                    finally:
-                        rec.uninstall()
-                    return w, rec.ev
+                    found = o
+                    break
+            if found is not None:
+                break
+        if found is None:
+            raise ValueError("no CCITTFaxDecode stream in the sample")
+        parms = resolve1(found.attrs.get("DecodeParms")) or {}
+        w = int(resolve1(parms.get("Columns")))
+        height = int(resolve1(found.attrs.get("Height")))
     except Exception as e:
         ck.note("sample Group 4 image not used: %r" % (e,))
-    return None, None
+        return None, None
+    rec = g4run.Recorder().install()
+    err = None
+    try:
+        found.get_data()
+    except BaseException as e:  # noqa: B902
+        err = type(e).__name__
+    finally:
+        rec.uninstall()
+    case = {"kind": "sample-image", "file": path}
+    nrows = sum(1 for e in rec.ev if e["m"] == "line")
+    if err is not None:
+        capped(ck, counts, "sample-image:exception:" + err, "get_data() of the real Group 4 image in %s (third-party encoder, "
+               "%d x %d) raised %s after %d rows" % (path, w, height, err, nrows), case)
+        return None, None
+    if nrows != height:
+        capped(ck, counts, "sample-image:rows", "the real Group 4 image in %s decoded to %d rows, /Height is %d" % (path, nrows, height), case)
+    return w, rec.ev
 
 
 def validate_traces(ck, traces, counts):
@@ -459,7 +480,7 @@ def validate_traces(ck, traces, counts):
 def direction_b(ck, counts, stats):
     rng = random.Random(ck.seed)
     traces, events = record_traces(ck, rng, counts)
-    w, ev = sample_image_trace(ck)
+    w, ev = sample_image_trace(ck, counts)
     if ev:
         lines = [e for e in ev if e["m"] == "line"]
         limit = 60 if ck.tier == "quick" else 400             # rows of the 2479 x 3507 scan
